@@ -30,7 +30,7 @@ ASSUMPTIONS = ["the registry clause is a monitor on sampled live objects, not a 
                "reference models in bnpsim/models are correct renderings of the format specs",
                "SimFS implements the BufferedReader/Writer contract"]
 
-FORMAT_WEIGHTS = [(2, "bed3"), (3, "bed6"), (3, "bed12"), (3, "narrowpeak"), (3, "bdg"), (3, "vcf"), (3, "sam"),
+FORMAT_WEIGHTS = [(2, "bed3"), (3, "bed6"), (3, "bed12"), (3, "narrowpeak"), (3, "bdg"), (3, "vcf"), (2, "vcfinfo"), (3, "sam"),
                   (2, "fastq"), (1, "fasta2")]
 
 
